@@ -43,13 +43,15 @@ def shapes_cases_v(cases, tag):
 
 
 def evaluate(cases, tag):
-    """returns {id: row} for the shape cases"""
+    """returns {id: row} for the shape cases; shards are evaluated by parallel coqc processes"""
+    from concurrent.futures import ThreadPoolExecutor
     rows = {}
     good = [c for c in cases if not c.get("error")]
-    for k in range(0, len(good), SHARD):
-        part = good[k:k + SHARD]
-        path = shapes_cases_v(part, "%s_%d" % (tag, k // SHARD))
-        rc, out = C.coqc(path)
+    parts = [good[k:k + SHARD] for k in range(0, len(good), SHARD)]
+    paths = [shapes_cases_v(part, "%s_%d" % (tag, i)) for i, part in enumerate(parts)]
+    with ThreadPoolExecutor(max_workers=8) as ex:
+        outs = list(ex.map(C.coqc, paths))
+    for part, path, (rc, out) in zip(parts, paths, outs):
         res = C.parse_z_lists(out, "results")
         if rc != 0 or res is None or len(res) != len(part):
             raise C.TieBroken("coqc could not evaluate the C17 cases file (%s): %s" % (path, out[-1500:]))
@@ -61,14 +63,14 @@ def evaluate(cases, tag):
 def model_counts():
     """sizes of the model's enumerations, printed by Rocq"""
     body = "From NIC Require Import Shapes.Model Shapes.Cases.\n"
-    body += "Definition counts : list (list Z) := Eval vm_compute in [map (fun n => Z.of_nat n) shape_counts].\nPrint counts.\n"
+    body += "Definition counts : list (list Z) := Eval vm_compute in [map (fun n => Z.of_nat n) shape_counts; [if codes_roundtrip then 1 else 0]%Z].\nPrint counts.\n"
     path = os.path.join(C.WORK, "cases", "C17_counts.v")
     C.write_cases_v(path, body)
     rc, out = C.coqc(path)
     res = C.parse_z_lists(out, "counts")
     if rc != 0 or not res:
         raise C.TieBroken("coqc could not evaluate Shapes.Cases.shape_counts: %s" % out[-1500:])
-    return dict(zip(FAMS, res[0]))
+    return dict(zip(FAMS, res[0])), bool(res[1][0])
 
 
 def panic_sig(c, p):
@@ -108,6 +110,9 @@ def judge_shapes(run, cases, rows, counts=None):
             run.failing({"kind": "flag-dependence", "fam": fam}, [c],
                         "the outcome for %s shape %s depends on a feature flag the model does not read: %s" % (fam, c["shape"], json.dumps(c["flagdiff"][:2])),
                         theorem="correspondence Shapes.Model ~ real code (flags)", found_input=False)
+        elif not agree and c.get("panics") and all(C.match_known(run.pid, panic_sig(c, p)) for p in c["panics"]):
+            # the disagreement is a panic at the site of an open known finding, on an inadmissible shape
+            run.failing(panic_sig(c, c["panics"][0]), [c], "panic at the site of a known finding (inadmissible shape %s)" % c["shape"])
         elif not agree:
             run.failing({"kind": "correspondence", "fam": fam}, [c],
                         "model and implementation disagree on %s shape %s (and the specification still holds on it): obs=%s"
@@ -147,6 +152,10 @@ def judge_random(run, cases):
 
 def check(run):
     n = 1500 if run.tier == "quick" else 30000
+    rc, mk = C.coq_make(only=["Base", "Shapes", "Properties/C17.v"], tag="c17")
+    if rc != 0:
+        run.failing({"kind": "proof-broken"}, [], "the Shapes development no longer builds: %s" % mk[-1200:], theorem="coq/Shapes", found_input=False)
+        return
     run.proof_obligations()
     binary = C.go_build("c17")
     out = os.path.join(C.WORK, "cases", "c17_%s.jsonl" % run.tier)
@@ -156,7 +165,8 @@ def check(run):
     cases = C.read_jsonl(out)
     shapes = [c for c in cases if c["fam"] != "rnd"]
     rnd = [c for c in cases if c["fam"] == "rnd"]
-    counts = model_counts()
+    counts, roundtrip = model_counts()
+    run.add_obligation(roundtrip, "Shapes.Cases.codes_roundtrip", "a shape code does not decode back to its shape")
     rows = evaluate(shapes, run.tier)
     judge_shapes(run, shapes, rows, counts)
     judge_random(run, rnd)
